@@ -63,6 +63,7 @@ type request struct {
 	lenient    bool // 0 or 1 replies are both acceptable
 	respLimit  int  // HTTP: value of the x-frugal-payload-limit header (0: none)
 	httpStatus int  // HTTP: status of the response
+	hdrShape   string // "plain", or what is special about the header block (empty-valued pair last, ...)
 	foreign    bool // HTTP: the response frame carried another request's op id
 	taints     bool // leaves a stream connection in an undefined state
 	sentinel   bool
@@ -401,7 +402,46 @@ func newRequest1(rng *rand.Rand, proto string, kind int, o genOpts) *request {
 	if rng.Intn(3) == 0 {
 		hdrs = append(hdrs, wire.Pair{Name: "_timeout", Value: strconv.Itoa(30000 + rng.Intn(30000))})
 	}
+	// user headers, some with an empty value, one possibly with an empty name:
+	// all of them legal v0 header pairs, in every position of the block
+	if rng.Intn(2) == 0 {
+		emptyName := false
+		for i, n := 0, 1+rng.Intn(3); i < n; i++ {
+			name := fmt.Sprintf("%s%d", []string{"x-user-", "k", "trace.id/", "h"}[rng.Intn(4)], i)
+			if !emptyName && rng.Intn(6) == 0 {
+				name, emptyName = "", true
+			}
+			val := ""
+			if rng.Intn(2) == 0 {
+				val = randText(rng, 1+rng.Intn(30))
+			}
+			hdrs = append(hdrs, wire.Pair{Name: name, Value: val})
+		}
+	}
 	rng.Shuffle(len(hdrs), func(i, j int) { hdrs[i], hdrs[j] = hdrs[j], hdrs[i] })
+	if rng.Intn(3) == 0 {
+		// an empty-valued pair as the very last bytes of the header block
+		for i := range hdrs {
+			if hdrs[i].Value == "" {
+				hdrs[i], hdrs[len(hdrs)-1] = hdrs[len(hdrs)-1], hdrs[i]
+				break
+			}
+		}
+	}
+	r.hdrShape = "plain"
+	for _, h := range hdrs {
+		if h.Name == "" {
+			r.hdrShape = "empty-name"
+		}
+	}
+	for _, h := range hdrs {
+		if h.Value == "" && r.hdrShape == "plain" {
+			r.hdrShape = "empty-value"
+		}
+	}
+	if hdrs[len(hdrs)-1].Value == "" {
+		r.hdrShape = "empty-value-last"
+	}
 	msg := &wire.Message{Name: r.method, Type: mt, Seq: 0, Body: args}
 	full, begin, end, err := wire.EncodeMessageSplit(rig.TProtocolFactory(proto), msg)
 	if err != nil {
